@@ -10,7 +10,7 @@ C09.c  datatype diagnostics matrix (DIAG): every lexical/facet violation code co
 import os
 
 from .. import core
-from ..core import AnalysisBroken, sx_walk
+from ..core import AnalysisBroken, sx_walk, sx_str
 from ..engines import diag, dispatch, guard
 from ..oracles import xsd_builtins as O
 
@@ -294,6 +294,72 @@ def duration_order_rule(rep, f):
                "src/xercesc/util/XMLDateTime.cpp:%s" % sts[0].get("line", 0))
 
 
+def base64_filler_rule(rep):
+    rep.rule("C09.e", "base64Binary final quantum (XML Schema Part 2 3.2.16: `B16 '='` and `B04 '=='`): in Base64::decode the branch "
+             "for two pad characters rejects the value unless the low 4 bits of the preceding sextet are zero, the branch for one "
+             "pad unless the low 2 bits are zero (CFG: the filler test found under the controlling conditions isPad(d3) / isPad(d4) "
+             "uses mask 0xF resp. 0x3 and its failing edge leaves the function) — a narrower mask accepts literals outside the "
+             "lexical space, which then have no canonical form")
+    g = core.run_xa([os.path.join(core.REPO, "src/xercesc/util/Base64.cpp")], cfg=r"^Base64::decode$", flat=False)
+    n = 0
+    for raw in g.cfgs.get("Base64::decode", []):
+        cfg = guard.Cfg(raw)
+        for bid, blk in sorted(cfg.blocks.items()):
+            t = blk.get("term")
+            c = t and t.get("cond")
+            if not (c and c[0] == "b" and c[1] == "!=" and c[3] == ["i", 0] and c[2][0] == "b" and c[2][1] == "&" and c[2][3][0] == "i"):
+                continue
+            pads = {}
+            for cond, pol, _p in guard.controlling(cfg, bid):
+                cc, neg = cond, False
+                while cc[0] == "u" and cc[1] == "!":
+                    cc, neg = cc[2], not neg
+                if cc[0] == "c" and cc[1].split("::")[-1] == "isPad" and cc[3] and cc[3][0][0] == "l":
+                    pads[cc[3][0][1]] = (pol != neg)
+            if len(pads) < 2:
+                continue
+            names = sorted(pads)            # d3, d4
+            two = all(pads[k] for k in names)
+            want = 0xF if two else 0x3
+            n += 1
+            mask = c[2][3][1]
+            rep.ob("C09.e", "decode/%s" % ("two-pad" if two else "one-pad"), mask == want,
+                   "filler bits tested with mask 0x%X" % mask if mask == want else
+                   "Base64::decode (line %s): the %s branch tests the filler bits with mask 0x%X instead of 0x%X: a final quantum with "
+                   "non-zero filler bits is accepted" % (t.get("l"), "two-pad (xx==)" if two else "one-pad (xxx=)", mask, want),
+                   "src/xercesc/util/Base64.cpp:%s" % t.get("l", 0))
+    rep.floor("C09.e", n, 2)
+
+
+def union_compare_rule(rep):
+    rep.rule("C09.f", "two values of a union are equal only as values of a member type that accepts both: in "
+             "UnionDatatypeValidator::compare every call of a member validator's compare() is preceded, in the same basic block "
+             "(the try block of one loop round), by validate() of the left and of the right value on that member — a member that "
+             "rejects the literals (facets) must not be the one that declares them equal in its primitive value space")
+    g = core.run_xa([os.path.join(core.REPO, "src/xercesc/validators/datatype/UnionDatatypeValidator.cpp")],
+                    cfg=r"^UnionDatatypeValidator::compare$", flat=False)
+    cfg = guard.Cfg(g.cfg("UnionDatatypeValidator::compare"))
+    n = 0
+    for bid, blk in sorted(cfg.blocks.items()):
+        els = blk["els"]
+        for i, el in enumerate(els):
+            for c in guard.el_top_calls(el):
+                if not (c[0] == "c" and c[1] == "DatatypeValidator::compare" and c[2] and c[2] != ["this"] and len(c[3]) >= 2):
+                    continue
+                n += 1
+                seen = set()
+                for e2 in els[:i]:
+                    for v in guard.el_top_calls(e2):
+                        if v[0] == "c" and v[1] == "DatatypeValidator::validate" and v[2] == c[2] and v[3]:
+                            seen.add(sx_str(v[3][0]))
+                need = {sx_str(c[3][0]), sx_str(c[3][1])}
+                ok = need <= seen
+                rep.ob("C09.f", "UnionDatatypeValidator::compare@%s" % el.get("l"), ok, "both operands validated against the member first" if ok else
+                       "UnionDatatypeValidator::compare (line %s) lets a member type compare %s without first validating %s against it" % (
+                           el.get("l"), sorted(need), sorted(need - seen)), "src/xercesc/validators/datatype/UnionDatatypeValidator.cpp:%s" % el.get("l", 0))
+    rep.floor("C09.f", n, 1)
+
+
 def run(rep):
     f = core.library_facts()
     rep.units.update(os.path.relpath(t, core.REPO) for t in f.tus)
@@ -301,6 +367,8 @@ def run(rep):
     xsvalue_rule(rep, f, strs)
     base_first_rule(rep, f)
     duration_order_rule(rep, f)
+    base64_filler_rule(rep)
+    union_compare_rule(rep)
     diag.run(rep, f, "C09")
     dispatch.run(rep, f, "C09")
     rep.undecided += ["lexical and value-space verdicts of each validator, facet arithmetic, comparison order (consistency, indeterminate cases), "
